@@ -41,7 +41,7 @@ def _emission_guarded(R, rid, f, emit_calls, key):
                     [f.loc()])
         return None
     add = adds[0]
-    fa = PR.facts(f)
+    fa = PR.facts(f, relevant=lambda a: _is_distinct_flag(a) or (a.get("kind") == "call" and a.get("call") is add), tag="distinct")
     if not fa.ok:
         R.violation(rid, key + "|unanalysable", "%s: too many paths to establish the DISTINCT guard" % f.path, [f.loc()])
         return None
